@@ -97,6 +97,9 @@ func f(x *big.Int) *big.Int { v := id(x); v.Add(v, v); return v }`, "id,f", fals
 	{"result of a modifying method returned", bigPre + `func f(x *big.Int) *big.Int { v := new(big.Int).Set(x); return v.Add(v, x) }`, "f", true, "let v : Int := x\n  (v + x)"}, // accepted since stage 12: v.Add(…); return v
 	{"ModInverse result not dereferenced by the next statement", bigPre + `func f(x, z, m *big.Int) *big.Int { zinv := new(big.Int).ModInverse(z, m); w := new(big.Int).Set(x); w.Mul(w, zinv); return w }`, "f", false,
 		"the statement that follows immediately must dereference `zinv`"},
+	{"ModInverse result compared with itself (nil.Cmp(nil) does not dereference)", bigPre + `func f(z, m *big.Int) int { zinv := new(big.Int).ModInverse(z, m); c := zinv.Cmp(zinv); return c }`, "f", false, "must dereference `zinv`"},
+	{"ModInverse result set to itself (nil.Set(nil) does not dereference)", bigPre + `func f(z, m *big.Int) int { zinv := new(big.Int).ModInverse(z, m); zinv.Set(zinv); return 5 }`, "f", false, "must dereference `zinv`"},
+	{"ModInverse result as an operand of Cmp", bigPre + `func f(x, z, m *big.Int) int { zinv := new(big.Int).ModInverse(z, m); c := x.Cmp(zinv); return c }`, "f", false, "must dereference `zinv`"},
 	{"ModInverse as the last statement", bigPre + `func f(z, m *big.Int) *big.Int { zinv := new(big.Int).ModInverse(z, m); return zinv }`, "f", false, "must dereference `zinv`"},
 	{"ModInverse result passed to a function", bigPre + `func g(x *big.Int) *big.Int { return new(big.Int).Set(x) }
 func f(z, m *big.Int) *big.Int { zinv := new(big.Int).ModInverse(z, m); r := g(zinv); return r }`, "g,f", false, "must dereference `zinv`"},
